@@ -6,7 +6,7 @@ MODULE = "ExecManager"
 TIMEOUT_MS = 100
 LATE_RESPONSE_OK = True   # = LateResponseOK of spec/Trace_ExecManager*.cfg (used to describe, not to decide)
 META = {
-    "spec": ["ExecManager", "BarterSystem"],
+    "spec": ["ExecManager", "BarterSystem", "AccountLink"],
     "technique": "TLC model checking of ExecManager (safety exhaustively, liveness under weak fairness) and of the "
                  "composition BarterSystem (in flight ~> resolved) + "
                  "trace validation of the real ExecutionManager::run under tokio's paused clock against the spec",
@@ -319,6 +319,11 @@ def check(ctx):
         ctx.tlc_mc("BarterSystem", "MC_BarterSystem_thorough.cfg", timeout=1800, coverage=False)
     ctx.tlc_expect_violation("BarterSystem", "MC_BarterSystem_unfair.cfg", "Temporal property Resolved was violated")
     composition(ctx)
+    # the manager behind its real account link (ExecutionManager::init: responses merged with the reconnecting account
+    # stream; spec/AccountLink.tla, props/acctlink.py): every request handed over is answered exactly once, at its own
+    # instant, also while the link is down, waiting out a back-off or re-initialising
+    from props import acctlink
+    acctlink.run(ctx, {"C07"})
     # spec -> impl -> spec: every generated batch runs on the real manager, its trace is validated
     p_t, scn_t = ctx.tlc_gen("Gen_" + MODULE, "GenT_ExecManager.cfg", "batches.ndjson")
     out_t, _ = run_scenarios(ctx, p_t, scn_t, "batches")
@@ -424,6 +429,9 @@ def replay(ctx, rp):
     if rp.get("kind") == "system":
         composition(ctx)          # re-runs the real system with the recorded seed family
         return ctx.finish(write_evidence=False)
+    if rp.get("kind") == "acctlink":
+        from props import acctlink
+        return acctlink.replay(ctx, rp, {"C07"})
     ctx.build("c07")
     scn = ctx.path("replay_scn.ndjson")
     reps = 5   # tokio's select! order is not seedable: sample it
